@@ -509,6 +509,13 @@ acquire_start(struct AcquireRuntime* self_)
     EXPECT(self->valid_video_streams > 0,
            "At least one video stream must be marked valid");
 
+    // Starting while an acquisition is in progress is an error, and it must
+    // leave that acquisition alone.
+    if (acquire_get_state(self_) == DeviceState_Running) {
+        LOGE("An acquisition is already running.");
+        return AcquireStatus_Error;
+    }
+
     for (int i = 0; i < countof(self->video); ++i) {
         struct video_s* video = self->video + i;
         if (((self->valid_video_streams >> i) & 1) == 0) {
